@@ -123,7 +123,13 @@ def cons(e, f, d=0):
         if re.search(r'ParseBuffer(::<.*>)?::parse_terminated$', e[3]):
             return 'terminated(%s)' % tok_name(short(e[2][1][1]) if len(e[2]) > 1 and e[2][1][0] == 'fnref' else '?')
         if p.startswith('parser::'):
-            return '%s(%s)' % (short(cidn(p)), ','.join(C(a) for a in e[2] if a[0] == 'int'))
+            def is_buf(a):
+                a = strip(a)
+                if a[0] in ('arg', 'var'):
+                    return 'ParseBuffer' in f.local_ty(a[1]) or 'ParseStream' in f.local_ty(a[1])
+                return a[0] == 'upvar' or (a[0] == 'call' and ('ParseBuffer' in a[4] or re.search(r'parse_(braces|brackets|parens)$', a[3]) is not None)) or \
+                    (a[0] == 'field' and is_buf(a[1])) or (a[0] == 'payload' and is_buf(a[1]))
+            return '%s(%s)' % (short(cidn(p)), ','.join(C(a) for a in e[2] if not is_buf(a)))
         if re.search(r'Iterator::collect|FromIterator::from_iter|Vec::from_iter|convert::Into::into|convert::From::from|IntoIterator::into_iter', e[3]):
             return C(e[2][0]) if e[2] else '?'
         if re.search(r'Box::<T>::new$', p):
@@ -146,6 +152,8 @@ def cons(e, f, d=0):
         return '(%s)' % ','.join(C(x) for x in e[1])
     if k == 'closure':
         return 'closure'
+    if k == 'fnref':
+        return 'fn:' + tok_name(e[1])
     return k
 
 
@@ -258,6 +266,131 @@ def extract(P):
     return out
 
 
+def canon_groups(p_):
+    """group buffers numbered in the order in which they first appear along the path (the extractor numbers them per function)"""
+    order = []
+    for m in re.finditer(r'\bg(\d+)\b', p_):
+        if m.group(1) not in order:
+            order.append(m.group(1))
+    if not order:
+        return p_
+    mp = {o: str(i) for i, o in enumerate(order)}
+    return re.sub(r'\bg(\d+)\b', lambda m: 'g§' + mp[m.group(1)], p_).replace('g§', 'g')
+
+
+def _split_events(p_):
+    """events of a path string: split at spaces outside parentheses/braces/quotes"""
+    out, cur, depth, q = [], '', 0, None
+    for ch in p_:
+        if q:
+            cur += ch
+            if ch == q:
+                q = None
+            continue
+        if ch in '"\'':
+            q = ch
+            cur += ch
+            continue
+        if ch in '({[':
+            depth += 1
+        elif ch in ')}]':
+            depth -= 1
+        if ch == ' ' and depth == 0:
+            if cur:
+                out.append(cur)
+            cur = ''
+        else:
+            cur += ch
+    if cur:
+        out.append(cur)
+    return out
+
+
+def inline_helpers(g, names):
+    """the grammar with the helper functions `names` expanded at their call sites: the helper's token events replace the call
+    event (its buffer renamed to the buffer of the call), and its returned value replaces `helper(args)` in what the caller
+    constructs afterwards (the helper's argN standing for the arguments of that call).  Extracting a piece of a production
+    into a helper, and inlining it again, give the same expanded grammar."""
+    g = {k: list(v) for k, v in g.items()}
+    for h in names:
+        hp = g.get(h)
+        if hp is None:
+            continue
+        segs = h.split('::')
+        shorts = sorted({h, '::'.join(segs[-2:])}, key=len, reverse=True)
+        rets = []
+        for q in hp:
+            ev = _split_events(q)
+            if not ev or not ev[-1].startswith('RETURN('):
+                rets.append((ev, None))
+                continue
+            v = ev[-1][len('RETURN('):-1]
+            m = re.match(r'^Ok\{0:(.*)\}$', v)
+            rets.append((ev[:-1], m.group(1) if m else v))
+        for caller in list(g):
+            if caller == h:
+                continue
+            newpaths = []
+            for p_ in g[caller]:
+                work = [p_]
+                done = []
+                guard = 0
+                while work and guard < 200:
+                    guard += 1
+                    cur = work.pop()
+                    ev = _split_events(cur)
+                    idx = next((i for i, e_ in enumerate(ev) if re.match(r'^call\((\w+|\?),%s,' % re.escape(h), e_)), None)
+                    if idx is None:
+                        done.append(cur)
+                        continue
+                    buf = re.match(r'^call\((\w+|\?),', ev[idx]).group(1)
+                    for hev, hv in rets:
+                        hev2 = [re.sub(r'\(in([,)])', '(' + buf + r'\1', e_) for e_ in hev]
+                        # the helper's own groups must not clash with the caller's: tag them, canon_groups renumbers later
+                        hev2 = [re.sub(r'\bg(\d+)\b', lambda m_: 'g9%s%d' % (m_.group(1), guard), e_) for e_ in hev2]
+                        if hv is None:
+                            # a path of the helper that does not return a value normally (error): the caller's path ends there
+                            done.append(' '.join(ev[:idx] + hev2))
+                            continue
+                        hv2 = re.sub(r'\bg(\d+)\b', lambda m_: 'g9%s%d' % (m_.group(1), guard), hv)
+                        rest = []
+                        replaced_once = False
+                        for e_ in ev[idx + 1:]:
+                            for sh in shorts:
+                                # helper(ARGS) -> returned value with argN := ARGS[N-2] (arg1 is the buffer)
+                                pos = e_.find(sh + '(')
+                                while pos != -1 and not replaced_once:
+                                    j, depth = pos + len(sh) + 1, 1
+                                    while j < len(e_) and depth:
+                                        depth += e_[j] in '({['
+                                        depth -= e_[j] in ')}]'
+                                        j += 1
+                                    inner = e_[pos + len(sh) + 1:j - 1]
+                                    args, d2, cur_a = [], 0, ''
+                                    for ch in inner:
+                                        if ch in '({[':
+                                            d2 += 1
+                                        elif ch in ')}]':
+                                            d2 -= 1
+                                        if ch == ',' and d2 == 0:
+                                            args.append(cur_a)
+                                            cur_a = ''
+                                        else:
+                                            cur_a += ch
+                                    if cur_a:
+                                        args.append(cur_a)
+                                    val = re.sub(r'\barg(\d+)\b', lambda m_: args[int(m_.group(1)) - 2] if 0 <= int(m_.group(1)) - 2 < len(args) else m_.group(0), hv2)
+                                    e_ = e_[:pos] + val + e_[j:]
+                                    replaced_once = True
+                                    pos = -1
+                            rest.append(e_)
+                        work.append(' '.join(ev[:idx] + hev2 + rest))
+                newpaths.extend(done)
+            g[caller] = sorted(set(newpaths))
+        g.pop(h, None)
+    return g
+
+
 def canonical(g):
     """the grammar with the names of plain helper functions replaced by a hash of their own content, so that renaming a helper
     or hoisting a nested fn to module level changes nothing.  Productions of `impl Parse for X` keep their name (it is fixed
@@ -339,6 +472,21 @@ def run(ctx):
                 hr = [h for h, v in rhelps.items() if v[0][0] == name]
                 if hc and hr:
                     g[name], ref[name] = chelps[hc[0]][0][1], rhelps[hr[0]][0][1]
+    # helpers that exist on one side only are expanded at their call sites on that side (a block moved into a new helper, or a
+    # helper inlined into its only caller); then both sides are compared with path-local group numbering
+    is_prod = lambda n: re.search(r'<impl syn::parse::Parse for [\w:]+>::parse$', n) is not None
+    only_g = [n for n in g if n not in ref and not is_prod(n)]
+    only_r = [n for n in ref if n not in g and not is_prod(n)]
+    if only_g or only_r:
+        g2, r2 = inline_helpers(g, only_g), inline_helpers(ref, only_r)
+        g2 = {k: sorted({canon_groups(p_) for p_ in v}) for k, v in g2.items()}
+        r2 = {k: sorted({canon_groups(p_) for p_ in v}) for k, v in r2.items()}
+        if set(g2) == set(r2) and all(g2[k] == r2[k] for k in g2):
+            for n in only_g:
+                ctx.ob(['C18'], 'R-GRAM', 'production|%s' % n, True, 'new helper: expanded at its call sites the grammar equals the reference', '')
+            for n in only_r:
+                ctx.ob(['C18'], 'R-GRAM', 'production|%s' % n, True, 'helper of the reference was inlined: expanded the grammars are equal', '')
+            g, ref = g2, r2
     for name in sorted(set(g) | set(ref)):
         a, b = g.get(name), ref.get(name)
         if a is None:
